@@ -149,6 +149,6 @@ def opt(p0, data, model_func, pts, multinom=True,
     except nlopt.RoundoffLimited:
         print('nlopt.RoundoffLimited occured, other jobs still running. Users might want to adjust their boundaries or starting parameters if this message occures many times.')
         opt_val = -np.inf
-        xopt = [np.nan] * len(p0)
+        xopt = _project_params_up([np.nan] * len(p0), fixed_params)
 
     return xopt, opt_val
